@@ -35,6 +35,8 @@ class MemS3:
         self.now_ms = now_ms
         self.etag_counter = 0
         self.hook: Optional[Callable[[str, str, Dict[str, Any]], None]] = None   # hook(op, key, kwargs) before the effect
+        self.after_hook: Optional[Callable[[str, str], None]] = None             # after_hook(op, key) AFTER the effect: may raise
+        #   (the request was applied, the response is lost: read timeout, connection reset, 5xx on the way back)
         self.requests: List[tuple] = []
         self.real_clock_ages = False
         # how a failed precondition of a conditional PUT is answered: "412" (PreconditionFailed), "409"
@@ -95,11 +97,16 @@ class MemS3:
             if use409:
                 raise _err("ConditionalRequestConflict", "PutObject", 409)
             raise _err("PreconditionFailed", "PutObject", 412)
-        return {"ETag": self._put(Key, Body)}
+        out = {"ETag": self._put(Key, Body)}
+        if self.after_hook is not None:
+            self.after_hook("put_object", Key)
+        return out
 
     def delete_object(self, Bucket: str, Key: str, **kw: Any) -> Dict[str, Any]:
         self._call("delete_object", Key, {})
         self.objects.pop(Key, None)
+        if self.after_hook is not None:
+            self.after_hook("delete_object", Key)
         return {}
 
     SERVER_PAGE = 2         # the service never returns more keys than this per response (S3: 1000): small, to exercise paging
